@@ -537,9 +537,13 @@ func (s *transactionStore) Watch(ctx context.Context, ch chan<- configapi.Transa
 					if ctx.Err() != nil {
 						return
 					}
-					ch <- configapi.TransactionEvent{
+					select {
+					case ch <- configapi.TransactionEvent{
 						Type:        configapi.TransactionEvent_REPLAYED,
 						Transaction: *transaction,
+					}:
+					case <-ctx.Done():
+						return
 					}
 				}
 			} else {
@@ -583,9 +587,13 @@ func (s *transactionStore) Watch(ctx context.Context, ch chan<- configapi.Transa
 						transaction := entry.Value
 						transaction.Version = uint64(entry.Version)
 						transaction.ID.Index = configapi.Index(entry.Index)
-						ch <- configapi.TransactionEvent{
+						select {
+						case ch <- configapi.TransactionEvent{
 							Type:        configapi.TransactionEvent_REPLAYED,
 							Transaction: *transaction,
+						}:
+						case <-ctx.Done():
+							return
 						}
 					}
 				}
@@ -595,7 +603,15 @@ func (s *transactionStore) Watch(ctx context.Context, ch chan<- configapi.Transa
 		for {
 			select {
 			case event := <-eventCh:
-				ch <- event
+				select {
+				case ch <- event:
+				case <-ctx.Done():
+					go func() {
+						for range eventCh {
+						}
+					}()
+					return
+				}
 			case <-ctx.Done():
 				go func() {
 					for range eventCh {
